@@ -17,6 +17,7 @@ import (
 	"go/ast"
 	"go/parser"
 	"go/token"
+	"go/types"
 	"math/rand"
 	"os"
 	"path/filepath"
@@ -167,6 +168,39 @@ func (e *emitter) done() *emitted {
 	return &emitted{src: []byte(strings.Join(e.out, "\n") + "\n"), lineMap: e.lineMap, padding: e.padding}
 }
 
+// per-file context of the transform being applied (set by Run before each call; transforms run sequentially)
+var (
+	curPkgName string
+	curIsS1    bool
+	negPool    []poolItem          // self-contained plain functions of all negative example files
+	negByPkg   map[string][]int    // indices into negPool per example package
+	padFree    = map[string]bool{} // transforms whose padding may legitimately be reported on
+)
+
+type poolItem struct {
+	pkg, name string
+	lines     []string
+}
+
+// dangerousDocs: texts that tools treat specially when they meet them in a comment; as the doc comment of an unrelated
+// declaration in the middle of a file they must not change what is reported for the other declarations.
+var dangerousDocs = []string{
+	"// Code generated by verif-gen. DO NOT EDIT.",
+	"// This helper was copied from a file that said: Code generated by protoc-gen-go. DO NOT EDIT.",
+	"/* Code generated by stringer -type=Kind; DO NOT EDIT. */",
+	"//nolint",
+	"//nolint:gocritic // padding",
+	"// nolint: all",
+	"//lint:file-ignore U1000 padding",
+	"//go:generate echo padding",
+	"// +build ignore",
+	"// Deprecated: padding.",
+	"// TODO",
+	"// Output:",
+	"// #include <stdio.h>",
+	"// import \"C\"",
+}
+
 type transform struct {
 	name string
 	fn   func(s *split, tag string, rng *rand.Rand) *emitted
@@ -228,6 +262,57 @@ var transforms = []transform{
 	between("extern-funcs", func(tag string, i int, rng *rand.Rand) []string {
 		return []string{"", fmt.Sprintf("func verifExtern%s%d()", tag, i), ""}
 	}),
+	{"dangerous-docs", func(s *split, tag string, rng *rand.Rand) *emitted {
+		// dummy declarations WITH doc comments from the dangerous pool, between chunks; never as the first comment of the
+		// file (a generated-code marker in the leading comment legitimately makes the CLI skip the file)
+		e := newEmitter()
+		e.orig(s.header, 1)
+		seenComment := hasComment(s.header)
+		for i, c := range s.chunks {
+			if seenComment {
+				doc := dangerousDocs[rng.Intn(len(dangerousDocs))]
+				d := dummyDecl(tag, i, 1+rng.Intn(2))
+				e.pad("", doc)
+				e.pad(d[1:]...)
+			} else {
+				e.pad(dummyDecl(tag, i, rng.Intn(3))...)
+			}
+			e.orig(c.lines, c.start)
+			seenComment = seenComment || hasComment(c.lines)
+		}
+		e.orig(s.tail, s.tailAt)
+		return e.done()
+	}},
+	{"append-negatives", func(s *split, tag string, rng *rand.Rand) *emitted {
+		// the functions of the checkers' negative examples are the constructs some checker treats specially (goto, labels,
+		// recover, init-like shapes, ...): append those of this package's own negative files and a few foreign ones
+		e := newEmitter()
+		e.orig(s.header, 1)
+		for _, c := range s.chunks {
+			e.orig(c.lines, c.start)
+		}
+		e.orig(s.tail, s.tailAt)
+		var picks []int
+		if own := negByPkg[curPkgName]; len(own) > 0 {
+			picks = append(picks, own...)
+		}
+		for k := 0; k < 4 && len(negPool) > 0; k++ {
+			picks = append(picks, rng.Intn(len(negPool)))
+		}
+		used := map[int]bool{}
+		for _, pi := range picks {
+			if used[pi] {
+				continue
+			}
+			used[pi] = true
+			it := negPool[pi]
+			e.pad("")
+			for _, l := range it.lines {
+				e.pad(strings.Replace(l, "func "+it.name+"(", "func verifNeg"+tag+"_"+it.pkg+"_"+it.name+"(", 1))
+			}
+		}
+		return e.done()
+	}},
 	{"reverse-funcs", func(s *split, tag string, rng *rand.Rand) *emitted {
 		// every pair of plain functions changes its relative order (a random permutation may keep a given pair)
 		var slots []int
@@ -285,6 +370,165 @@ var transforms = []transform{
 		e.orig(s.tail, s.tailAt)
 		return e.done()
 	}},
+}
+
+var cliLineRE = regexp.MustCompile(`^(\S+?\.go):(\d+):(\d+): (\w+: .*)$`)
+
+// cliDiagnostics runs the built CLI (all checkers) on the example packages under dir, in batches that one process can
+// load, and returns pkg/file -> diagnostics; with a line map, lines are mapped back to the original file and diagnostics
+// on padding are dropped.
+func cliDiagnostics(meta *common.Meta, dir string, pkgs []*fw.Pkg, ems map[string]*emitted) map[string][]wkey {
+	batches := fw.Batches(pkgs)
+	outs := make([]string, len(batches))
+	errs := make([]error, len(batches))
+	fw.Parallel(len(batches), func(i int) {
+		args := []string{"check", "-enableAll"}
+		for _, p := range batches[i] {
+			args = append(args, "./checkers/testdata/"+p.Name)
+		}
+		out, code, err := common.Run(300*time.Second, dir, common.GoEnv(), filepath.Join(common.BinDir(), "go-critic"), args...)
+		if err == nil && code != 0 && code != 1 {
+			err = fmt.Errorf("exit %d: %s", code, clipStr(out, 300))
+		}
+		outs[i], errs[i] = out, err
+	})
+	res := map[string][]wkey{}
+	for i := range batches {
+		if errs[i] != nil {
+			meta.TieBroken = append(meta.TieBroken, "go-critic check on "+dir+" did not finish normally: "+errs[i].Error())
+			continue
+		}
+		for _, l := range strings.Split(outs[i], "\n") {
+			m := cliLineRE.FindStringSubmatch(l)
+			if m == nil {
+				continue
+			}
+			id := filepath.Base(filepath.Dir(m[1])) + "/" + filepath.Base(m[1])
+			var ln, col int
+			fmt.Sscan(m[2], &ln)
+			fmt.Sscan(m[3], &col)
+			if ems != nil {
+				em := ems[id]
+				if em == nil {
+					continue
+				}
+				ol, ok := em.lineMap[ln]
+				if !ok {
+					continue // on padding
+				}
+				ln = ol
+			}
+			res[id] = append(res[id], wkey{ln, col, m[4]})
+		}
+	}
+	return res
+}
+
+// cliLevel: the same metamorphic statement through the built CLI (file filters, generated-code detection, printing):
+// diagnostics of the untouched declarations must be what the CLI prints for the original file.
+func cliLevel(meta *common.Meta, name, mod string, s1 []*fw.Pkg, ems map[string]*emitted, cliBase map[string][]wkey) {
+	got := cliDiagnostics(meta, mod, s1, ems)
+	files, withDiag := 0, 0
+	for _, p := range s1 {
+		if _, ex := Exempt[p.Name]; ex {
+			continue
+		}
+		for _, f := range p.Files {
+			id := f.ID()
+			if ems[id] == nil {
+				continue
+			}
+			files++
+			// exempt checkers' lines are not judged
+			filter := func(ks []wkey) []wkey {
+				var out []wkey
+				for _, k := range ks {
+					c := k.text
+					if i := strings.Index(c, ":"); i >= 0 {
+						c = c[:i]
+					}
+					if _, ex := Exempt[c]; !ex {
+						out = append(out, k)
+					}
+				}
+				return out
+			}
+			w, g := filter(cliBase[id]), filter(got[id])
+			if len(w) > 0 {
+				withDiag++
+			}
+			onlyT, onlyO := diffSets(multiset(g), multiset(w))
+			if len(onlyT) == 0 && len(onlyO) == 0 {
+				continue
+			}
+			checker := "cli"
+			if len(onlyO) == len(w) && len(g) == 0 {
+				checker = "cli/file-skipped"
+			}
+			meta.Fail("C13/"+checker+"/"+name, fmt.Sprintf("go-critic check: diagnostics of the untouched declarations of %s change after %s", id, name),
+				map[string]interface{}{"original_file": f.Path, "transform": name, "transformed_source": string(ems[id].src), "only_in_original": clipList(onlyO), "only_in_transformed(original line numbers)": clipList(onlyT),
+					"replay": "go-critic check -enableAll on the package with transformed_source in place of the original file; compare with the original's output"})
+		}
+	}
+	meta.Distribution["cli_level_files_"+name] = files
+	if withDiag < 50 {
+		meta.TieBroken = append(meta.TieBroken, fmt.Sprintf("CLI baseline has diagnostics for only %d example files", withDiag))
+	}
+}
+
+func clipList(l []string) []string {
+	if len(l) > 8 {
+		return append(l[:8:8], fmt.Sprintf("... (%d more)", len(l)-8))
+	}
+	return l
+}
+
+func hasComment(lines []string) bool {
+	for _, l := range lines {
+		if strings.Contains(l, "//") || strings.Contains(l, "/*") {
+			return true
+		}
+	}
+	return false
+}
+
+// buildNegPool collects the plain functions of negative example files that type-check on their own (no imports, no
+// package-level helpers), so that they can be appended to any file.
+func buildNegPool(files []*fw.File, splits map[string]*split) {
+	negPool, negByPkg = nil, map[string][]int{}
+	for _, f := range files {
+		if f.Pkg.Stream != "S1" || !strings.HasPrefix(f.Name, "negative") {
+			continue
+		}
+		sp := splits[f.ID()]
+		if sp == nil {
+			continue
+		}
+		for _, c := range sp.chunks {
+			if !c.plain || c.name == "" || c.name == "_" {
+				continue
+			}
+			var body []string
+			for _, l := range c.lines {
+				if directiveRE.MatchString(l) {
+					continue
+				}
+				body = append(body, l)
+			}
+			src := "package p\n\n" + strings.Join(body, "\n") + "\n"
+			fset := token.NewFileSet()
+			pf, err := parser.ParseFile(fset, "p.go", src, parser.ParseComments)
+			if err != nil {
+				continue
+			}
+			conf := types.Config{Error: func(error) {}}
+			if _, err := conf.Check("p", fset, []*ast.File{pf}, nil); err != nil {
+				continue
+			}
+			negByPkg[f.Pkg.Name] = append(negByPkg[f.Pkg.Name], len(negPool))
+			negPool = append(negPool, poolItem{f.Pkg.Name, c.name, body})
+		}
+	}
 }
 
 type wkey struct {
@@ -382,6 +626,22 @@ func Run(tier string, seed int64, outDir string) *common.Meta {
 			baseList = append(baseList, fb)
 		}
 	}
+	{
+		splits := map[string]*split{}
+		var fl []*fw.File
+		for _, fb := range baseList {
+			splits[fb.f.ID()] = fb.split
+			fl = append(fl, fb.f)
+		}
+		buildNegPool(fl, splits)
+		meta.Distribution["negative_function_pool"] = len(negPool)
+		if len(negPool) < 20 {
+			meta.TieBroken = append(meta.TieBroken, fmt.Sprintf("pool of appendable negative-example functions is nearly empty (%d)", len(negPool)))
+		}
+		padFree["dangerous-docs"], padFree["append-negatives"] = true, true
+	}
+	// CLI baseline on the original examples (for the CLI-level variant of the transforms)
+	cliBase := cliDiagnostics(meta, common.RepoDir, base[:nS1], nil)
 	runAll := func(pkgs []*fw.Pkg, fset *token.FileSet, sink func(f *fw.File, ci int, o fw.Outcome)) {
 		results := make([]map[*fw.File][]fw.Outcome, len(pkgs))
 		err := fw.ForEachPkg(fset, infos, pkgs, func(set *fw.Set, pi int) {
@@ -456,6 +716,7 @@ func Run(tier string, seed int64, outDir string) *common.Meta {
 			var pats []string
 			seenPkg := map[string]bool{}
 			for _, fb := range baseList {
+				curPkgName, curIsS1 = fb.f.Pkg.Name, fb.f.Pkg.Stream == "S1"
 				em := tr.fn(fb.split, tagOf(fb.f.Pkg.Name, fb.f.Name), rng)
 				common.WriteFile(filepath.Join(mod, relDir(fb.f.Pkg), fb.f.Name), string(em.src))
 				ems[fb.f.ID()] = em
@@ -506,6 +767,15 @@ func Run(tier string, seed int64, outDir string) *common.Meta {
 				}
 				evals++
 				got, onPad := keysOf(f, o, em.lineMap)
+				if padFree[tr.name] {
+					var kept []wkey
+					for _, k := range got {
+						if k.line != 0 {
+							kept = append(kept, k)
+						}
+					}
+					got = kept
+				}
 				if len(got) > 0 {
 					distinct++
 				}
@@ -530,7 +800,7 @@ func Run(tier string, seed int64, outDir string) *common.Meta {
 					}
 					meta.Fail(key, fmt.Sprintf("%s: %s after %s of %s", info.Name, what, tr.name, f.ID()), w)
 				}
-				if len(onPad) > 0 {
+				if len(onPad) > 0 && !padFree[tr.name] {
 					report("a warning appears on padding code", map[string]interface{}{"on_padding": onPad})
 					return
 				}
@@ -540,7 +810,7 @@ func Run(tier string, seed int64, outDir string) *common.Meta {
 					return
 				}
 				// (a) the suite's criterion for the owner of the examples, on the transformed text itself
-				if info.Name == f.Pkg.Name {
+				if info.Name == f.Pkg.Name && !padFree[tr.name] {
 					expectChecked++
 					lines := strings.Split(strings.TrimSuffix(string(em.src), "\n"), "\n")
 					exp := expectations(lines)
@@ -576,6 +846,9 @@ func Run(tier string, seed int64, outDir string) *common.Meta {
 				}
 			})
 			_ = ti
+			if tr.name == "dangerous-docs" || (tier == "thorough" && tr.name != "identity") {
+				cliLevel(meta, tr.name, mod, base[:nS1], ems, cliBase)
+			}
 		}
 	}
 	meta.Evaluations = evals
